@@ -198,6 +198,12 @@ fn run_scenario(sc: &Value) {
                     pool.clean_task_result(*id);
                 }
             }
+            // a worker creation that fails (a stack that cannot be mapped): the running size must not change
+            "bad_co" => {
+                let r = pool.submit_co(|_, ()| None, Some(usize::MAX / 4), None);
+                rec(json!({"ev": "bad_co", "ok": r.is_ok()}));
+                probe(pool);
+            }
             "take" => {
                 let t = h["t"].as_u64().unwrap();
                 if let Some(id) = ids.get(&t) {
